@@ -1,1 +1,32 @@
-(* C16 -- theorems to be stated here. *)
+(* C16 -- clones and separate instances are independent, deterministic values: statements about the
+   multi-instance machine that the extracted interpreter runs (Interp.step).
+   The model is purely functional, so these are short; that the CODE has no hidden sharing (and that
+   CtrCore's hand-written Clone copies everything) is what the correspondence runs establish, with
+   multi-instance programs and state observers (gen/props/c16.py). *)
+From BM Require Import BlockModes Plumbing Toy Ctr Belt Stream Cts Interp Machine_proofs.
+
+(* an operation leaves every instance it neither names nor defines untouched *)
+Theorem C16_frame : forall bs w dm s rs o j, op_reads o <> Some j -> op_defines o <> Some j ->
+  lookup (fst (step bs w dm s rs o)) j = lookup s j.
+Proof. exact step_frame. Qed.
+Print Assumptions C16_frame.
+
+(* results and the footprint's new contents depend only on the footprint's old contents *)
+Theorem C16_local : forall bs w dm s1 s2 rs o,
+  (forall id, op_reads o = Some id \/ op_defines o = Some id -> lookup s1 id = lookup s2 id) ->
+  snd (step bs w dm s1 rs o) = snd (step bs w dm s2 rs o) /\
+  (forall j, op_reads o = Some j \/ op_defines o = Some j ->
+             lookup (fst (step bs w dm s1 rs o)) j = lookup (fst (step bs w dm s2 rs o)) j).
+Proof. exact step_local. Qed.
+Print Assumptions C16_local.
+
+(* a clone holds the very value of the original (BelT-CTR objects are not Clone in /repo) *)
+Theorem C16_clone : forall bs w dm s rs id newid ob, lookup s id = Some ob ->
+  (match ob with OCore SBelt _ _ | OWrap SBelt _ _ => False | _ => True end) ->
+  lookup (fst (step bs w dm s rs (OpClone id newid))) newid = Some ob.
+Proof. exact step_clone. Qed.
+Print Assumptions C16_clone.
+
+Example C16_frame_nonvacuous : op_reads (OpIvState 3) <> Some 4 /\ op_defines (OpIvState 3) <> Some 4.
+Proof. split; discriminate. Qed.
+Print Assumptions C16_frame_nonvacuous.
